@@ -1,0 +1,496 @@
+//go:build verif
+
+package url
+
+// Contracts for govc (see /verif/DESIGN.md). Comment-only file: no code, compiled only with -tags verif.
+// Every line after the package clause that starts with "//@" is read by /verif/bin/govc; nothing here is read by the
+// Go compiler. Clause tags [Cxx] name the property of /verif/properties.jsonl that owns the clause.
+
+// ---------------------------------------------------------------------------------------------------------------
+// codesets.go
+// ---------------------------------------------------------------------------------------------------------------
+
+// One global invariant per table: established by the package initialiser (obligation kind `global` in url.init), assumed
+// at the entry of every other function; sound because no function has a table object in its modifies set (frame obligations).
+//@ global url.tab.ASCIITabOrNewline: ASCIITabOrNewline != nil && (forall k int :: bsTest(ASCIITabOrNewline, k) == specIsTabOrNewline(k))   [C10]
+//@ global url.tab.ASCIIAlpha: ASCIIAlpha != nil && (forall k int :: bsTest(ASCIIAlpha, k) == specIsAlpha(k))   [C10]
+//@ global url.tab.ASCIIDigit: ASCIIDigit != nil && (forall k int :: bsTest(ASCIIDigit, k) == specIsDigit(k))   [C10]
+//@ global url.tab.ASCIIHexDigit: ASCIIHexDigit != nil && (forall k int :: bsTest(ASCIIHexDigit, k) == specIsHex(k))   [C10]
+//@ global url.tab.ASCIIAlphanumeric: ASCIIAlphanumeric != nil && (forall k int :: bsTest(ASCIIAlphanumeric, k) == specIsAlnum(k))   [C10]
+//@ global url.tab.C0control: C0control != nil && (forall k int :: bsTest(C0control, k) == specIsC0(k))   [C10]
+//@ global url.tab.C0controlOrSpace: C0controlOrSpace != nil && (forall k int :: bsTest(C0controlOrSpace, k) == specIsC0OrSpace(k))   [C10]
+//@ global url.tab.ForbiddenHostCodePoint: ForbiddenHostCodePoint != nil && (forall k int :: bsTest(ForbiddenHostCodePoint, k) == specForbiddenHost(k))   [C10]
+//@ global url.tab.ForbiddenDomainCodePoint: ForbiddenDomainCodePoint != nil && (forall k int :: bsTest(ForbiddenDomainCodePoint, k) == specForbiddenDomain(k))   [C10]
+//@ global url.tab.someURLCodePoints: someURLCodePoints != nil && (forall k int :: bsTest(someURLCodePoints, k) == (specURLPunct(k) && k != 0x21))   [C10]
+//@ global url.set.C0PercentEncodeSet: C0PercentEncodeSet != nil && C0PercentEncodeSet.bs != nil && (forall r int :: 0 <= r ==> setHas(C0PercentEncodeSet, r) == specC0Set(r))   [C10]
+//@ global url.set.C0OrSpacePercentEncodeSet: C0OrSpacePercentEncodeSet != nil && C0OrSpacePercentEncodeSet.bs != nil && (forall r int :: 0 <= r ==> setHas(C0OrSpacePercentEncodeSet, r) == specC0OrSpaceSet(r))   [C10]
+//@ global url.set.FragmentPercentEncodeSet: FragmentPercentEncodeSet != nil && FragmentPercentEncodeSet.bs != nil && (forall r int :: 0 <= r ==> setHas(FragmentPercentEncodeSet, r) == specFragmentSet(r))   [C10]
+//@ global url.set.QueryPercentEncodeSet: QueryPercentEncodeSet != nil && QueryPercentEncodeSet.bs != nil && (forall r int :: 0 <= r ==> setHas(QueryPercentEncodeSet, r) == specQuerySet(r))   [C10]
+//@ global url.set.SpecialQueryPercentEncodeSet: SpecialQueryPercentEncodeSet != nil && SpecialQueryPercentEncodeSet.bs != nil && (forall r int :: 0 <= r ==> setHas(SpecialQueryPercentEncodeSet, r) == specSpecialQuerySet(r))   [C10]
+//@ global url.set.PathPercentEncodeSet: PathPercentEncodeSet != nil && PathPercentEncodeSet.bs != nil && (forall r int :: 0 <= r ==> setHas(PathPercentEncodeSet, r) == specPathSet(r))   [C10]
+//@ global url.set.UserInfoPercentEncodeSet: UserInfoPercentEncodeSet != nil && UserInfoPercentEncodeSet.bs != nil && (forall r int :: 0 <= r ==> setHas(UserInfoPercentEncodeSet, r) == specUserinfoSet(r))   [C10]
+//@ global url.set.HostPercentEncodeSet: HostPercentEncodeSet != nil && HostPercentEncodeSet.bs != nil && (forall r int :: 0 <= r ==> setHas(HostPercentEncodeSet, r) == specHostSet(r))   [C10]
+
+//@ func NewPercentEncodeSet
+//@   ensures result != nil && fresh(result) && result.bs != nil && fresh(result.bs) && result.allBelow == allBelow   [C10]
+//@   ensures forall k int :: bsTest(result.bs, k) == inSlice(bytes, len(bytes), k)   [C10]
+//@   loop 1 invariant p != nil && fresh(p) && p.bs != nil && fresh(p.bs) && p.allBelow == allBelow
+//@   loop 1 invariant forall k int :: bsTest(p.bs, k) == inSlice(bytes, $i, k)
+
+//@ func (*PercentEncodeSet).Set
+//@   requires p != nil && p.bs != nil
+//@   ensures result != nil && fresh(result) && result.bs != nil && fresh(result.bs) && result.allBelow == p.allBelow   [C10]
+//@   ensures forall k int :: bsTest(result.bs, k) == (bsTest(p.bs, k) || inSlice(bytes, len(bytes), k))   [C10]
+//@   ensures forall k int :: bsTest(p.bs, k) == old(bsTest(p.bs, k))   [C10 derive-does-not-alter]
+//@   loop 1 invariant r != nil && fresh(r) && r.bs != nil && fresh(r.bs) && r.allBelow == p.allBelow
+//@   loop 1 invariant forall k int :: bsTest(r.bs, k) == (bsTest(p.bs, k) || inSlice(bytes, $i, k))
+
+//@ func (*PercentEncodeSet).Clear
+//@   requires p != nil && p.bs != nil
+//@   ensures result != nil && fresh(result) && result.bs != nil && fresh(result.bs) && result.allBelow == p.allBelow   [C10]
+//@   ensures forall k int :: bsTest(result.bs, k) == (bsTest(p.bs, k) && !inSlice(bytes, len(bytes), k))   [C10]
+//@   ensures forall k int :: bsTest(p.bs, k) == old(bsTest(p.bs, k))   [C10 derive-does-not-alter]
+//@   loop 1 invariant r != nil && fresh(r) && r.bs != nil && fresh(r.bs) && r.allBelow == p.allBelow
+//@   loop 1 invariant forall k int :: bsTest(r.bs, k) == (bsTest(p.bs, k) && !inSlice(bytes, $i, k))
+
+//@ func (*PercentEncodeSet).RuneShouldBeEncoded
+//@   requires p != nil && p.bs != nil
+//@   ensures r >= 0 ==> result == setHas(p, r)   [C10]
+
+//@ func (*PercentEncodeSet).ByteShouldBeEncoded
+//@   requires p != nil && p.bs != nil
+//@   ensures result == setHas(p, b)   [C10]
+
+//@ func (*PercentEncodeSet).RuneNotInSet
+//@   requires p != nil && p.bs != nil
+//@   ensures r >= 0 ==> result == !(r < p.allBelow || bsTest(p.bs, r))   [C10]
+
+//@ func isURLCodePoint
+//@   ensures r >= 0 ==> result == (specIsURLCodePoint(r) && r != 0x21)
+
+// ---------------------------------------------------------------------------------------------------------------
+// parser.go: small predicates
+// ---------------------------------------------------------------------------------------------------------------
+
+//@ func isWindowsDriveLetter
+//@   ensures result == (len(s) == 2 && specIsAlpha(s[0]) && (s[1] == ':' || s[1] == '|'))   [C01]
+
+//@ func isNormalizedWindowsDriveLetter
+//@   ensures result == (len(s) == 2 && specIsAlpha(s[0]) && s[1] == ':')   [C01]
+
+//@ func startsWithAWindowsDriveLetter
+//@   ensures result == (len(s) >= 2 && specIsAlpha(s[0]) && (s[1] == ':' || s[1] == '|')
+//@                      && (len(s) == 2 || s[2] == '/' || s[2] == '\\' || s[2] == '?' || s[2] == '#'))   [C01]
+
+// Package initialisation: init#1 fills the range-defined tables; the synthetic package initialiser (var initialisers in
+// dependency order, then init#1) establishes the global invariants url.tables and url.sets above.
+
+//@ func init#1
+//@   requires ASCIIAlpha != nil && ASCIIDigit != nil && ASCIIHexDigit != nil && ASCIIAlphanumeric != nil && C0control != nil
+//@            && C0controlOrSpace != nil && ForbiddenDomainCodePoint != nil
+//@   requires ASCIIAlpha != ASCIIDigit && ASCIIAlpha != ASCIIHexDigit && ASCIIAlpha != ASCIIAlphanumeric && ASCIIAlpha != C0control
+//@            && ASCIIAlpha != C0controlOrSpace && ASCIIAlpha != ForbiddenDomainCodePoint
+//@            && ASCIIDigit != ASCIIHexDigit && ASCIIDigit != ASCIIAlphanumeric && ASCIIDigit != C0control
+//@            && ASCIIDigit != C0controlOrSpace && ASCIIDigit != ForbiddenDomainCodePoint
+//@            && ASCIIHexDigit != ASCIIAlphanumeric && ASCIIHexDigit != C0control && ASCIIHexDigit != C0controlOrSpace
+//@            && ASCIIHexDigit != ForbiddenDomainCodePoint
+//@            && ASCIIAlphanumeric != C0control && ASCIIAlphanumeric != C0controlOrSpace && ASCIIAlphanumeric != ForbiddenDomainCodePoint
+//@            && C0control != C0controlOrSpace && C0control != ForbiddenDomainCodePoint && C0controlOrSpace != ForbiddenDomainCodePoint
+//@   requires forall k int :: !bsTest(ASCIIAlpha, k) && !bsTest(ASCIIDigit, k) && !bsTest(ASCIIHexDigit, k)
+//@            && !bsTest(ASCIIAlphanumeric, k) && !bsTest(C0control, k)
+//@   requires forall k int :: bsTest(C0controlOrSpace, k) == (k == 0x20)
+//@   requires forall k int :: bsTest(ForbiddenDomainCodePoint, k) == (specForbiddenHost(k) || k == 0x25 || k == 0x7F)
+//@   modifies bsBits(ASCIIAlpha), bsBits(ASCIIDigit), bsBits(ASCIIHexDigit), bsBits(ASCIIAlphanumeric), bsBits(C0control),
+//@            bsBits(C0controlOrSpace), bsBits(ForbiddenDomainCodePoint)
+//@   ensures forall k int :: bsTest(ASCIIAlpha, k) == specIsAlpha(k)   [C10]
+//@   ensures forall k int :: bsTest(ASCIIDigit, k) == specIsDigit(k)   [C10]
+//@   ensures forall k int :: bsTest(ASCIIHexDigit, k) == specIsHex(k)   [C10]
+//@   ensures forall k int :: bsTest(ASCIIAlphanumeric, k) == specIsAlnum(k)   [C10]
+//@   ensures forall k int :: bsTest(C0control, k) == specIsC0(k)   [C10]
+//@   ensures forall k int :: bsTest(C0controlOrSpace, k) == specIsC0OrSpace(k)   [C10]
+//@   ensures forall k int :: bsTest(ForbiddenDomainCodePoint, k) == specForbiddenDomain(k)   [C10]
+//@   loop 1 modifies bsBits(ASCIIAlpha)
+//@   loop 1 invariant 'a' <= i && i <= 'z' + 1
+//@   loop 1 invariant forall k int :: bsTest(ASCIIAlpha, k) == ('a' <= k && k < i)
+//@   loop 1 decreases 'z' + 1 - i
+//@   loop 2 modifies bsBits(ASCIIAlpha)
+//@   loop 2 invariant 'A' <= i && i <= 'Z' + 1
+//@   loop 2 invariant forall k int :: bsTest(ASCIIAlpha, k) == (('a' <= k && k <= 'z') || ('A' <= k && k < i))
+//@   loop 2 decreases 'Z' + 1 - i
+//@   loop 3 modifies bsBits(ASCIIDigit)
+//@   loop 3 invariant '0' <= i && i <= '9' + 1
+//@   loop 3 invariant forall k int :: bsTest(ASCIIDigit, k) == ('0' <= k && k < i)
+//@   loop 3 decreases '9' + 1 - i
+//@   loop 4 modifies bsBits(ASCIIHexDigit)
+//@   loop 4 invariant 'A' <= i && i <= 'F' + 1
+//@   loop 4 invariant forall k int :: bsTest(ASCIIHexDigit, k) == (specIsDigit(k) || ('A' <= k && k < i))
+//@   loop 4 decreases 'F' + 1 - i
+//@   loop 5 modifies bsBits(ASCIIHexDigit)
+//@   loop 5 invariant 'a' <= i && i <= 'f' + 1
+//@   loop 5 invariant forall k int :: bsTest(ASCIIHexDigit, k) == (specIsDigit(k) || ('A' <= k && k <= 'F') || ('a' <= k && k < i))
+//@   loop 5 decreases 'f' + 1 - i
+//@   loop 6 modifies bsBits(C0control), bsBits(C0controlOrSpace), bsBits(ForbiddenDomainCodePoint)
+//@   loop 6 invariant 0 <= i && i <= 0x20
+//@   loop 6 invariant forall k int :: bsTest(C0control, k) == (0 <= k && k < i)
+//@   loop 6 invariant forall k int :: bsTest(C0controlOrSpace, k) == (k == 0x20 || (0 <= k && k < i))
+//@   loop 6 invariant forall k int :: bsTest(ForbiddenDomainCodePoint, k) == (specForbiddenHost(k) || k == 0x25 || k == 0x7F || (0 <= k && k < i))
+//@   loop 6 decreases 0x20 - i
+
+//@ func init
+
+// ---------------------------------------------------------------------------------------------------------------
+// parseroptions.go: every option writes exactly the field its documentation names [C16]
+// ---------------------------------------------------------------------------------------------------------------
+
+//@ func newFuncParserOption
+//@   ensures result != nil && fresh(result) && result.f == f
+
+//@ func (*funcParserOption).apply
+//@   requires fpo != nil && fpo.f != nil && po != nil
+//@   modifies po.*
+
+//@ func (EmptyParserOption).apply
+
+//@ func defaultParserOptions
+//@   ensures !result.reportValidationErrors && !result.failOnValidationError && !result.laxHostParsing
+//@           && !result.collapseConsecutiveSlashes && !result.acceptInvalidCodepoints && result.preParseHostFunc == nil
+//@           && result.postParseHostFunc == nil && !result.percentEncodeSinglePercentSign && !result.allowSettingPathForNonBaseUrl
+//@           && !result.skipWindowsDriveLetterNormalization && !result.skipTrailingSlashNormalization
+//@           && result.encodingOverride == nil && !result.skipEqualsForEmptySearchParamsValue   [C16]
+//@   ensures result.specialSchemes == defaultSpecialSchemes && result.pathPercentEncodeSet == PathPercentEncodeSet
+//@           && result.specialQueryPercentEncodeSet == SpecialQueryPercentEncodeSet && result.queryPercentEncodeSet == QueryPercentEncodeSet
+//@           && result.specialFragmentPercentEncodeSet == FragmentPercentEncodeSet && result.fragmentPercentEncodeSet == FragmentPercentEncodeSet   [C16]
+
+//@ func WithReportValidationErrors
+//@   ensures result != nil
+//@ func WithReportValidationErrors$1
+//@   requires o != nil
+//@   modifies o.reportValidationErrors
+//@   ensures o.reportValidationErrors   [C16]
+
+//@ func WithFailOnValidationError
+//@   ensures result != nil
+//@ func WithFailOnValidationError$1
+//@   requires o != nil
+//@   modifies o.failOnValidationError
+//@   ensures o.failOnValidationError   [C16]
+
+//@ func WithLaxHostParsing
+//@   ensures result != nil
+//@ func WithLaxHostParsing$1
+//@   requires o != nil
+//@   modifies o.laxHostParsing
+//@   ensures o.laxHostParsing   [C16]
+
+//@ func WithCollapseConsecutiveSlashes
+//@   ensures result != nil
+//@ func WithCollapseConsecutiveSlashes$1
+//@   requires o != nil
+//@   modifies o.collapseConsecutiveSlashes
+//@   ensures o.collapseConsecutiveSlashes   [C16]
+
+//@ func WithAcceptInvalidCodepoints
+//@   ensures result != nil
+//@ func WithAcceptInvalidCodepoints$1
+//@   requires o != nil
+//@   modifies o.acceptInvalidCodepoints
+//@   ensures o.acceptInvalidCodepoints   [C16]
+
+//@ func WithPercentEncodeSinglePercentSign
+//@   ensures result != nil
+//@ func WithPercentEncodeSinglePercentSign$1
+//@   requires o != nil
+//@   modifies o.percentEncodeSinglePercentSign
+//@   ensures o.percentEncodeSinglePercentSign   [C16]
+
+//@ func WithAllowSettingPathForNonBaseUrl
+//@   ensures result != nil
+//@ func WithAllowSettingPathForNonBaseUrl$1
+//@   requires o != nil
+//@   modifies o.allowSettingPathForNonBaseUrl
+//@   ensures o.allowSettingPathForNonBaseUrl   [C16]
+
+//@ func WithSkipWindowsDriveLetterNormalization
+//@   ensures result != nil
+//@ func WithSkipWindowsDriveLetterNormalization$1
+//@   requires o != nil
+//@   modifies o.skipWindowsDriveLetterNormalization
+//@   ensures o.skipWindowsDriveLetterNormalization   [C16]
+
+//@ func WithSkipTrailingSlashNormalization
+//@   ensures result != nil
+//@ func WithSkipTrailingSlashNormalization$1
+//@   requires o != nil
+//@   modifies o.skipTrailingSlashNormalization
+//@   ensures o.skipTrailingSlashNormalization   [C16]
+
+//@ func WithSkipEqualsForEmptySearchParamsValue
+//@   ensures result != nil
+//@ func WithSkipEqualsForEmptySearchParamsValue$1
+//@   requires o != nil
+//@   modifies o.skipEqualsForEmptySearchParamsValue
+//@   ensures o.skipEqualsForEmptySearchParamsValue   [C16]
+
+//@ func WithPreParseHostFunc
+//@   ensures result != nil
+//@ func WithPreParseHostFunc$1
+//@   requires o != nil
+//@   modifies o.preParseHostFunc
+//@   ensures o.preParseHostFunc == f   [C16]
+
+//@ func WithPostParseHostFunc
+//@   ensures result != nil
+//@ func WithPostParseHostFunc$1
+//@   requires o != nil
+//@   modifies o.postParseHostFunc
+//@   ensures o.postParseHostFunc == f   [C16]
+
+//@ func WithSpecialSchemes
+//@   ensures result != nil
+//@ func WithSpecialSchemes$1
+//@   requires o != nil
+//@   modifies o.specialSchemes
+//@   ensures o.specialSchemes == special   [C16]
+
+//@ func WithEncodingOverride
+//@   ensures result != nil
+//@ func WithEncodingOverride$1
+//@   requires o != nil
+//@   modifies o.encodingOverride
+//@   ensures o.encodingOverride == cm   [C16]
+
+//@ func WithPathPercentEncodeSet
+//@   ensures result != nil
+//@ func WithPathPercentEncodeSet$1
+//@   requires o != nil
+//@   modifies o.pathPercentEncodeSet
+//@   ensures o.pathPercentEncodeSet == encodeSet   [C16]
+
+//@ func WithQueryPercentEncodeSet
+//@   ensures result != nil
+//@ func WithQueryPercentEncodeSet$1
+//@   requires o != nil
+//@   modifies o.queryPercentEncodeSet
+//@   ensures o.queryPercentEncodeSet == encodeSet   [C16]
+
+//@ func WithSpecialQueryPercentEncodeSet
+//@   ensures result != nil
+//@ func WithSpecialQueryPercentEncodeSet$1
+//@   requires o != nil
+//@   modifies o.specialQueryPercentEncodeSet
+//@   ensures o.specialQueryPercentEncodeSet == encodeSet   [C16]
+
+//@ func WithFragmentPathPercentEncodeSet
+//@   ensures result != nil
+//@ func WithFragmentPathPercentEncodeSet$1
+//@   requires o != nil
+//@   modifies o.fragmentPercentEncodeSet
+//@   ensures o.fragmentPercentEncodeSet == encodeSet   [C16]
+
+//@ func WithSpecialFragmentPathPercentEncodeSet
+//@   ensures result != nil
+//@ func WithSpecialFragmentPathPercentEncodeSet$1
+//@   requires o != nil
+//@   modifies o.specialFragmentPercentEncodeSet
+//@   ensures o.specialFragmentPercentEncodeSet == encodeSet   [C16]
+
+// ---------------------------------------------------------------------------------------------------------------
+// errorhandler.go: the single choke point deciding record / fail [C15]
+// ---------------------------------------------------------------------------------------------------------------
+
+//@ func (*parser).handleError
+//@   requires p != nil && u != nil
+//@   modifies u.validationErrors, u.validationErrors[..]
+//@   ensures (result != nil) == (failure || p.opts.failOnValidationError)   [C15]
+//@   ensures result != nil ==> fresh(result) && isVE(result) && errType(result) == errorType && errFailure(result) == failure   [C15]
+//@   ensures !p.opts.reportValidationErrors ==> u.validationErrors == old(u.validationErrors)   [C15]
+//@   ensures p.opts.reportValidationErrors ==> len(u.validationErrors) == old(len(u.validationErrors)) + 1   [C15]
+//@   ensures (!failure && old(allNonFatal(u))) ==> allNonFatal(u)   [C15]
+
+//@ func (*parser).handleErrorWithDescription
+//@   requires p != nil && u != nil
+//@   modifies u.validationErrors, u.validationErrors[..]
+//@   ensures (result != nil) == (failure || p.opts.failOnValidationError)   [C15]
+//@   ensures result != nil ==> fresh(result) && isVE(result) && errType(result) == errorType && errFailure(result) == failure   [C15]
+//@   ensures !p.opts.reportValidationErrors ==> u.validationErrors == old(u.validationErrors)   [C15]
+//@   ensures p.opts.reportValidationErrors ==> len(u.validationErrors) == old(len(u.validationErrors)) + 1   [C15]
+//@   ensures (!failure && old(allNonFatal(u))) ==> allNonFatal(u)   [C15]
+
+//@ func (*parser).handleWrappedError
+//@   requires p != nil && u != nil
+//@   modifies u.validationErrors, u.validationErrors[..]
+//@   ensures (result != nil) == (failure || p.opts.failOnValidationError)   [C15]
+//@   ensures result != nil ==> fresh(result) && isVE(result) && errType(result) == errorType && errFailure(result) == failure   [C15]
+//@   ensures !p.opts.reportValidationErrors ==> u.validationErrors == old(u.validationErrors)   [C15]
+//@   ensures p.opts.reportValidationErrors ==> len(u.validationErrors) == old(len(u.validationErrors)) + 1   [C15]
+//@   ensures (!failure && old(allNonFatal(u))) ==> allNonFatal(u)   [C15]
+
+// ---------------------------------------------------------------------------------------------------------------
+// inputstring.go: the code-point cursor. cur(i) is its representation invariant (/verif/spec/url.wf.spec)
+// ---------------------------------------------------------------------------------------------------------------
+
+//@ func newInputString
+//@   ensures result != nil && fresh(result) && cur(result) && result.pointer == -1 && !result.eof && result.s == s
+//@   ensures result.length == runeCount(s) && fresh(result.runes) && off(result.runes) == 0 && content(result.runes) == runesOf(s)
+
+//@ func (*inputString).nextCodePoint
+//@   requires cur(i) && !i.eof
+//@   modifies i.pointer, i.eof
+//@   ensures cur(i) && i.pointer == old(i.pointer) + 1 && i.eof == (i.pointer >= i.length)
+//@   ensures !i.eof ==> result == i.runes[i.pointer]
+//@   ensures i.eof ==> result == 0xFFFD
+//@   ensures 0 <= result && result <= 0x10FFFF
+
+//@ func (*inputString).currentIsInvalid
+//@   requires cur(i) && 0 <= i.pointer && i.pointer < i.length
+//@   ensures result == (i.runes[i.pointer] == 0xFFFD)
+
+//@ func (*inputString).rewindLast
+//@   requires cur(i) && i.pointer >= 0
+//@   modifies i.pointer, i.eof
+//@   ensures cur(i) && i.pointer == old(i.pointer) - 1 && !i.eof
+
+//@ func (*inputString).reset
+//@   requires cur(i)
+//@   modifies i.pointer, i.eof
+//@   ensures cur(i) && i.pointer == -1 && !i.eof
+
+//@ func (*inputString).rewind
+//@   requires cur(i) && length >= 1 && i.pointer - length >= -1
+//@   modifies i.pointer, i.eof
+//@   ensures cur(i) && i.pointer == old(i.pointer) - length && !i.eof
+
+//@ func (*inputString).remainingFromPointer
+//@   requires cur(i) && (i.eof || i.pointer >= 0)
+//@   ensures i.eof ==> result == ""
+
+//@ func (*inputString).remainingStartsWith
+//@   requires cur(i)
+//@   ensures i.eof ==> !result
+//@   ensures result ==> (!i.eof && len(s) <= 4 * (i.length - i.pointer - 1))
+
+//@ func (*inputString).remainingIsInvalidPercentEncoded
+//@   requires cur(i) && 0 <= i.pointer
+
+//@ func remainingIsInvalidPercentEncoded
+
+//@ func (*inputString).String
+//@   requires i != nil
+
+// ---------------------------------------------------------------------------------------------------------------
+// path.go
+// ---------------------------------------------------------------------------------------------------------------
+
+//@ func (*path).isOpaque
+//@   requires p != nil
+//@   ensures result == p.opaque
+//@ func (*path).isEmpty
+//@   requires p != nil
+//@   ensures result == (len(p.p) == 0)
+//@ func (*path).setOpaque
+//@   requires p != nil
+//@   modifies p.p, p.opaque
+//@   ensures p.opaque && len(p.p) == 1 && p.p[0] == opaquePath && fresh(p.p)
+//@ func (*path).addSegment
+//@   requires p != nil
+//@   modifies p.p, p.opaque, p.p[..]
+//@   ensures !p.opaque && len(p.p) == old(len(p.p)) + 1 && p.p[len(p.p) - 1] == segment
+//@   ensures forall k int :: 0 <= k && k < old(len(p.p)) ==> p.p[k] == old(p.p[k])
+//@ func (*path).init
+//@   requires p != nil
+//@   modifies p.p, p.opaque
+//@   ensures !p.opaque && len(p.p) == 0 && fresh(p.p)
+//@ func (*path).shortenPath
+//@   requires p != nil
+//@   modifies p.p
+//@   ensures (scheme == "file" && old(len(p.p)) == 1 && len(old(p.p[0])) == 2 && specIsAlpha(old(p.p[0])[0]) && old(p.p[0])[1] == ':')
+//@           ==> p.p == old(p.p)   [C01]
+//@   ensures !(scheme == "file" && old(len(p.p)) == 1 && len(old(p.p[0])) == 2 && specIsAlpha(old(p.p[0])[0]) && old(p.p[0])[1] == ':')
+//@           ==> (len(p.p) == max(old(len(p.p)) - 1, 0) && arr(p.p) == old(arr(p.p)) && off(p.p) == old(off(p.p)))   [C01]
+//@ func (*path).stripTrailingSpacesIfOpaque
+//@   requires p != nil && (p.opaque ==> len(p.p) >= 1)
+//@   modifies p.p[..]
+//@   ensures len(p.p) == old(len(p.p))
+//@ func (*path).clone
+//@   ensures p == nil ==> result == nil
+//@   ensures p != nil ==> result != nil && fresh(result) && result.opaque == p.opaque && len(result.p) == len(p.p)   [C13]
+//@   ensures p != nil && p.p != nil ==> fresh(result.p) && result.p != nil   [C13]
+//@   ensures p != nil ==> (forall k int :: 0 <= k && k < len(p.p) ==> result.p[k] == p.p[k])   [C13]
+//@ func (*path).String
+//@   requires p != nil && (p.opaque ==> len(p.p) >= 1)
+//@   ensures p.opaque ==> result == p.p[0]
+
+// ---------------------------------------------------------------------------------------------------------------
+// parser.go: helpers
+// ---------------------------------------------------------------------------------------------------------------
+
+//@ func containsOnly
+//@   requires tr != nil
+//@   ensures result == (forall k int :: 0 <= k && k < len(s) ==> bsTest(tr, s[k]))   [C07]
+//@   loop 1 invariant forall k int :: 0 <= k && k < $i ==> bsTest(tr, s[k])
+
+//@ func remove
+//@   requires tr != nil
+//@   ensures len(result0) <= len(s)
+//@   ensures forall k int :: 0 <= k && k < len(result0) ==> !bsTest(tr, result0[k])   [C01]
+//@   ensures !result1 ==> result0 == s   [C01]
+//@   loop 1 modifies nothing
+//@   loop 1 invariant len(r) <= $i && (r == nil || freshL(r))
+//@   loop 1 invariant forall k int :: 0 <= k && k < len(r) ==> !bsTest(tr, r[k])
+//@   loop 1 invariant !changed ==> (len(r) == $i && (forall k int :: 0 <= k && k < $i ==> r[k] == s[k]))
+
+//@ func trimPrefix
+//@   requires tr != nil && tr.bs != nil
+//@   ensures len(result0) <= len(s) && result0 == s[len(s) - len(result0):len(s)]   [C01]
+//@   ensures result1 == (len(result0) != len(s))   [C01]
+
+//@ func trimPostfix
+//@   requires tr != nil && tr.bs != nil
+//@   ensures len(result0) <= len(s) && result0 == s[0:len(result0)]   [C01]
+//@   ensures result1 == (len(result0) != len(s))   [C01]
+//@   loop 1 invariant -1 <= i && i <= len(s) - 1
+//@   loop 1 decreases i + 1
+
+//@ func trim
+//@   requires tr != nil && tr.bs != nil
+//@   ensures len(result0) <= len(s)
+//@   ensures result1 == (len(result0) != len(s))   [C01]
+
+//@ func (*Url).getSpecialScheme
+//@   requires u != nil && u.parser != nil
+//@   ensures result1 == special(u, s) && (result1 ==> result0 == defPort(u, s))
+//@ func (*Url).isSpecialScheme
+//@   requires u != nil && u.parser != nil
+//@   ensures result == special(u, s)
+//@ func (*Url).IsSpecialScheme
+//@   requires u != nil && u.parser != nil
+//@   ensures result == special(u, u.scheme)   [C19]
+//@ func (*Url).isSpecialSchemeAndBackslash
+//@   requires u != nil && u.parser != nil
+//@   ensures result == (special(u, u.scheme) && r == '\\')
+//@ func (*Url).cleanDefaultPort
+//@   requires u != nil && u.parser != nil
+//@   modifies u.port, u.decodedPort
+//@   ensures (special(u, u.scheme) && (old(u.port) == nil || defPort(u, u.scheme) == old(*u.port))) ==> (u.port == nil && u.decodedPort == 0)   [C04]
+//@   ensures !(special(u, u.scheme) && (old(u.port) == nil || defPort(u, u.scheme) == old(*u.port))) ==> (u.port == old(u.port) && u.decodedPort == old(u.decodedPort))   [C04]
+//@ func (*Url).getDefaultPort
+//@   requires u != nil && u.parser != nil
+//@   ensures !special(u, u.scheme) ==> result == 0   [C19]
+//@   ensures special(u, u.scheme) && specAtoiOK(defPort(u, u.scheme)) ==> result == specAtoiVal(defPort(u, u.scheme))   [C19]
+//@   ensures special(u, u.scheme) && !specAtoiOK(defPort(u, u.scheme)) ==> result == 0   [C19]
+
+// setOK(e): a percent-encode set handed to the parser is nil or a well-formed set (built by NewPercentEncodeSet/Set/Clear)
+//@ func (*parser).percentEncodeRune
+//@   requires p != nil && setOK(tr)
+//@   ensures (tr != nil && r >= 0 && !setHas(tr, r)) ==> result == utf8(r)   [C10]
+//@   ensures (p.opts.encodingOverride == nil && r >= 0 && (tr == nil || setHas(tr, r))) ==> (len(result) == 3 * len(utf8(r))
+//@           && (forall k int :: 0 <= k && k < len(utf8(r)) ==> (result[3 * k] == '%' && result[3 * k + 1] == "0123456789ABCDEF"[utf8(r)[k] / 16]
+//@               && result[3 * k + 2] == "0123456789ABCDEF"[utf8(r)[k] % 16])))   [C10]
+//@   loop 1 invariant 0 <= i && i <= n && n <= 4 && j == 3 * i && len(bytes) == 4 && len(percentEncoded) == 12 && fresh(percentEncoded) && fresh(bytes)
+//@   loop 1 invariant forall k int :: 0 <= k && k < i ==> (percentEncoded[3 * k] == '%' && percentEncoded[3 * k + 1] == "0123456789ABCDEF"[bytes[k] / 16]
+//@               && percentEncoded[3 * k + 2] == "0123456789ABCDEF"[bytes[k] % 16])
+//@   loop 1 invariant (p.opts.encodingOverride == nil) ==> (n == len(utf8(r)) && (forall k int :: 0 <= k && k < n ==> bytes[k] == utf8(r)[k]))
+//@   loop 1 decreases n - i
+
+//@ func (*parser).percentEncodeInvalidRune
+//@   requires p != nil && setOK(tr)
